@@ -272,10 +272,10 @@ class Session:
             val = rng.choice([0.0, 1.0, -1.5, 12345.678, 1e-7, -2.5e10, 3.0e-3, 0.1])
             su = rng.choice([0.0, 0.0, 0.5, 0.012, 3.0, -1.0])
             if op == 'init_numb':
-                scale = rng.choice([0, 1, 3, 6, -2, -400, 400])
+                scale = rng.choice([0, 1, 3, 6, -2, -400, 2000])
                 mlz = rng.choice([0, 1, 5, -1])
                 rc = L.call('cif_value_init_numb', p, val, su, scale, mlz)
-                bad = su < 0 or mlz < 0 or abs(scale) > 300
+                bad = su < 0 or mlz < 0 or scale > 1074 or scale < -308
             else:
                 rule = rng.choice([0, 1, 2, 9, 19, 27, 99])
                 rc = L.call('cif_value_autoinit_numb', p, val, su, rule)
